@@ -75,6 +75,20 @@ class Universe:
             else:
                 self.exts.append("init")       # external subroutine `init` and bound `init`
         self.unit_kind = rng.choice(["subroutine", "subroutine", "function", "program"])
+        # procedures defined in the module (superset of the ones the unit may call)
+        self.module_funcs = list(self.funcs)
+        self.module_subs = list(self.subs)
+        # a local array that hides a host-associated module procedure of the same name
+        # (only legal for host association, i.e. not in the program that USEs the module)
+        self.shadow = None
+        if self.unit_kind != "program" and rng.random() < 0.2:
+            cands = [f for f in FUNC_POOL + SUB_POOL if f not in self.funcs and f not in self.subs]
+            self.shadow = rng.choice(cands)
+            if self.shadow in FUNC_POOL:
+                self.module_funcs.append(self.shadow)
+            else:
+                self.module_subs.append(self.shadow)
+            self.arrs.append(self.shadow)
 
 
 # --------------------------------------------------------------------------
@@ -903,10 +917,10 @@ def module_text(u: Universe) -> list[str]:
             else:
                 L += [f"  function {tn}_{b}(self, k, k2) result(r)", f"    class({tn}) :: self",
                       "    integer, optional :: k, k2", "    real :: r", "    r = 0.0", f"  end function {tn}_{b}"]
-    for f in u.funcs:
+    for f in u.module_funcs:
         L += [f"  function {f}(p1, p2, p3) result(r)", "    real, optional :: p1, p2, p3", "    real :: r", "    r = 1.0",
               f"  end function {f}"]
-    for s in u.subs:
+    for s in u.module_subs:
         L += [f"  subroutine {s}(p1, p2, p3)", "    real, optional :: p1, p2, p3", f"  end subroutine {s}"]
     return L
 
@@ -946,7 +960,7 @@ def visible_names(u: Universe):
     if u.unit_kind == "function":
         vs.append("res")
     types = list(TYPES)
-    procs = list(u.funcs) + list(u.subs) + [f"{t}_{b}" for t, td in u.types.items() for b in td["bound"]] + [UNIT_NAME]
+    procs = list(u.module_funcs) + list(u.module_subs) + [f"{t}_{b}" for t, td in u.types.items() for b in td["bound"]] + [UNIT_NAME]
     return vs, types, procs
 
 
@@ -1306,6 +1320,10 @@ def run(tier: str, seed: int, replay: str | None = None) -> int:
             for f in ev["feat"]:
                 feat_hist[f] = feat_hist.get(f, 0) + 1
             feat_hist["unit:" + u.unit_kind] = feat_hist.get("unit:" + u.unit_kind, 0) + 1
+            if u.shadow:
+                feat_hist["local-array-hides-module-procedure"] = feat_hist.get("local-array-hides-module-procedure", 0) + 1
+            if u.collide:
+                feat_hist["colliding-names"] = feat_hist.get("colliding-names", 0) + 1
             case = {"stream": "unit", "case": k, "file": ev["lines"], "unit_statements": ev["unit_lines"]}
             if ev["impl"][0] != "ok" or ev["unit_lines"] is None:
                 n_impl_err += 1
@@ -1338,7 +1356,9 @@ def run(tier: str, seed: int, replay: str | None = None) -> int:
                 text, classes, unexplained = why
                 full = dict(case, expected=sorted(expected_set(sp), key=str), observed=post, why=text,
                             classes=sorted(classes), unexplained=unexplained)
-                if unexplained:
+                if unexplained and len(rep.violations) >= 3:
+                    rep.failing_input(full, None)
+                elif unexplained:
                     # shrink towards a small unexplained failure
                     def pred(b):
                         e2 = evaluate(impl, None, u, b, (seed, "layout", k), d)
